@@ -1,5 +1,5 @@
 """C15 - walking stays sound while the tree is being modified."""
-from contracts import k_walk
+from contracts import k_walk, k_links, k_order
 from pyvc.contract import verify_all
 from pyvc import native
 
@@ -7,10 +7,20 @@ from pyvc import native
 def run(rep, tier, seed):
     # P: one iteration of each of the three work-list loops between suspension points, heap havocked at every yield
     verify_all(rep, k_walk.specs('C15'))
+    # the walk tells a removed node from a live one only by the cleared AST<->FST link: the link kernel's contracts
+    # (what _set_field / _set_ast unmake) and the cover obligation on every deletion from a field list carry that
+    verify_all(rep, [s for s in k_links.specs('C15') if s.name.startswith(('links.set_field', 'links.set_ast'))])
+    k_order.unmake_covers_deletion(rep, 'C15')
     rep.assumptions.append('consumer model at a yield: the yielded node is left unchanged, replaced (its .a is another '
                            'AST whose .f is the node) or deleted (.a is None); at most two send() calls per suspension')
     sec = native.run('b_walkmod', 'main', {'tier': tier, 'seed': seed}, timeout=7200)
     sec['native_entry'] = ('b_walkmod', 'replay')
+    rep.bounded(sec)
+    # every edit of the sweep: nodes taken out of the tree are unmade (what the walk's liveness test relies on)
+    sec = native.run('b_edit', 'main', {'props': ['C15'], 'tier': tier, 'seed': seed, 'prepass': False, 'stride': 2,
+                                        'ops': ['remove', 'donor', 'slice', 'views', 'optional'], 'norm': True}, timeout=7200)
+    sec['name'] += '[detached nodes are unmade]'
+    sec['native_entry'] = ('b_edit', 'replay')
     rep.bounded(sec)
     rep.remainder = ('termination and "exactly once" under arbitrary interleavings on arbitrary trees (whole-history); '
                      'the first-node prefix, the walk-root epilogue of leave/both and the scope helper functions of walk: '
